@@ -198,6 +198,9 @@ def run_cell(cell, seed):
             x = util.make_input(kind, [cell['N'], cell['C']] + sp, seed)
         ok, y = util.call_lib(mod, x)
         out.append(judge(cell, kind, x, ok, y, L))
+        if kind == 'randn':
+            ok, y = util.call_lib_nograd(mod, x)
+            out.append(judge(cell, 'randn under torch.no_grad()', x, ok, y, L))
     if not cell.get('noimp') and core.rng_for(seed, PROP, 'reload', str(cell)).random() < 0.34:
         out.extend(reload_history(cell, seed))
     # generalisation certificate for this cell
